@@ -70,6 +70,11 @@ claim("C09", "model_checking",
       "Sched.tla models AddMove (refusal rule) and the emission of forced and free slots; TLC checks that every emitted sequence satisfies the contract (count, due-ness, minimum counts, weight-zero never free) over all small tables. For every small table TLC exports the complete allowed set and the code's emitted set over thousands of draws must equal it (nothing forbidden, nothing lost). Names emitted by real run/srun/irun executions of random larger tables and every add_move outcome (default- and explicit-criteria paths) are judged record by record by TLC. Slot frequencies are compared with the exact probabilities at |z| <= 6.",
       "Trusted: TLC, Json module. 'Independently, proportional to weight' is a distributional clause: decided statistically (6 sigma), not by TLC. Bounds: exhaustive part <= 2 moves (3 thorough), cycles <= 3 (4); traces <= 5 moves, 12 cycles.", "5 C09")
 
+claim("C15", "model_checking",
+      "TLC exhaustive over plans (splits x entry points x observer intervals, Driver.tla) + replay of the enumerated plans on Canonical, GrandCanonical and ForceBias against the schedule and the unsplit run",
+      "Driver.tla executes a plan (sequence of run/srun/irun calls incl. zero-length ones) step by step; TLC checks for every plan and observer-interval set that the call schedule equals Expected(interval, total), the header is written once before any row, exactly the requested steps are performed and the outcome depends on the total only. The enumerated plans with TLC's expected schedules are executed on real drivers with recording observers, a default logger and a trajectory on in-memory files, and compared with the schedule and byte-for-byte with the single run of the same seed.",
+      "Trusted: TLC, in-memory text files. Bound: total <= 4 steps (quick) / 6 (thorough), <= 3 calls per plan; quick replays every 5th enumerated case.", "5 C15")
+
 NOT_YET = "check not built yet in this round (planned in DESIGN.md section 5); will be claimed once its spec and conformance harness exist"
 
 
